@@ -11,7 +11,10 @@
 static bool claim_bytes(size_t required, size_t provided,
                         struct cbor_decoder_result* result) {
   if (required > (provided - result->read)) {
-    result->required = required + result->read;
+    // The total can exceed SIZE_MAX for declared lengths close to 2^64
+    result->required = required > SIZE_MAX - result->read
+                           ? SIZE_MAX
+                           : required + result->read;
     result->read = 0;
     result->status = CBOR_DECODER_NEDATA;
     return false;
